@@ -111,12 +111,15 @@ func (st *c02State) compareParse(f gen.Frame) {
 		chk(frame.HasIP() == (ref.OffIP4 != 0 || ref.OffIP6 != 0), "hasip", "HasIP")
 		p := frame.Payload()
 		po := offOf(in, p)
-		if po == -2 { // empty payload: position = len
-			po = len(in)
-			chk(ref.PayloadOK(len(in)), "off:payload", fmt.Sprintf("Payload() empty but reference payload starts at %v of %d", ref.OffPayload, len(in)))
+		if po == -2 { // empty payload: position = end of the packet
+			po = ref.End
+			chk(ref.PayloadOK(ref.End), "off:payload", fmt.Sprintf("Payload() empty but reference payload starts at %v, packet ends at %d of %d", ref.OffPayload, ref.End, len(in)))
 		} else {
 			chk(ref.PayloadOK(po), "off:payload:"+refPayloadName(ref.PayloadID), fmt.Sprintf("Payload() at %d want one of %v", po, ref.OffPayload))
-			chk(po+len(p) == len(in), "payload-end", fmt.Sprintf("Payload() ends at %d, frame has %d bytes", po+len(p), len(in)))
+			chk(po+len(p) == ref.End, "payload-end", fmt.Sprintf("Payload() ends at %d, the packet ends at %d (frame has %d bytes)", po+len(p), ref.End, len(in)))
+		}
+		if ref.End < len(in) {
+			c.Obs("frames_with_link_padding", 1)
 		}
 	})
 	if pi == nil && !bad {
